@@ -65,6 +65,7 @@ func die(format string, a ...any) {
 func main() {
 	src := flag.String("src", "/repo", "package directory")
 	out := flag.String("out", "", "output directory for Gen/*.lean")
+	hooks := flag.String("hooks", "", "if set, write the Go hook dispatcher to this file")
 	flag.Parse()
 	if *out == "" {
 		die("missing -out")
@@ -103,6 +104,7 @@ func main() {
 	T.analyse()
 	T.emitAll()
 	T.write(*out)
+	T.writeHooks(*hooks, *out)
 }
 
 // ---------------------------------------------------------------- collection
